@@ -4,13 +4,24 @@ Plug-in for bin/check (see bin/checks.py). One harness run (`p3r-harness packing
 real code: (1) sentinel read-back for generated proof shapes — real `allocate` / `pack_values`,
 allocation-only circuit run, every target read back by an independent walk — and prints the
 allocation trace and the label sequences of both packed vectors in the driver's format;
-(2) the single-position perturbation campaign on real proofs (native verdict vs runner outcome).
-The Lean driver `p3r_driver_c14` evaluates `P3R.Model.Packing` on the same shape lines; the two
-answer streams are compared line by line (5 lines per shape).
+(2) the single-position perturbation campaign on real proofs (native verdict vs runner outcome),
+followed by the *structural* perturbation campaign: every container / option / cap / arity field of
+those proofs grown or shrunk by one, the verifier circuit rebuilt for the mutated proof, and — when
+that circuit accepts — every surplus element and the first / last element of every other kind
+altered (an input whose alteration leaves the rebuilt circuit accepting is dead);
+(3) the `hidmerge` correspondence: the real `HidingFriPcs::verify_circuit` called directly on
+generated opening structures x hiding-random-openings shapes (mirrored, or with a surplus / missing
+round, matrix or point), answered as which shape check fired.
+The Lean driver `p3r_driver_c14` evaluates `P3R.Model.Packing` on the same shape lines (5 lines per
+shape) and `P3R.Packing.hidMerge` on the same `hidmerge` lines (1 line each); the answer streams are
+compared line by line.
 """
 import json, os
 
 PROPERTY = "C14"
+
+CORRESPONDENCE_MERGE = ("hiding random openings merge (recursion/src/pcs/fri/targets.rs merge_hiding_random_openings, reached through "
+                        "RecursivePcs::verify_circuit of HidingFriPcs) vs lean/P3R/Model/HidingMerge.lean hidMerge")
 
 CORRESPONDENCE = ("packing (recursion/src/types/proof.rs, pcs/fri/targets.rs Recursive::{new,get_values,get_private_values}, "
                   "public_inputs.rs Stark/BatchStarkVerifierInputsBuilder::{allocate,pack_values}) "
@@ -29,13 +40,15 @@ def _read(p):
         return [l.rstrip("\n") for l in fh]
 
 
-def _harness(ctx, out, seed, shapes, corpus, campaign, per_kind, setups="all", label=""):
+def _harness(ctx, out, seed, shapes, corpus, campaign, per_kind, setups="all", label="", op="", merges=0):
     cmd = [ctx["harness"], "packing", "--seed", str(seed), "--shapes", str(shapes), "--out", out,
-           "--campaign", str(campaign), "--per-kind", str(per_kind), "--setups", setups]
+           "--campaign", str(campaign), "--per-kind", str(per_kind), "--setups", setups, "--merges", str(merges)]
     if corpus:
         cmd += ["--corpus", corpus]
     if label:
         cmd += ["--label", label]
+    if op:
+        cmd += ["--op", op]
     rc, o = ctx["sh"](cmd, timeout=7200)
     return cmd, rc, o
 
@@ -51,19 +64,20 @@ def run(ctx):
         rp = rp.get("replay", rp)
         if "setup" in rp:      # one campaign observation
             runs.append((f"{work}/run0", dict(seed=rp.get("seed", seed), shapes=0, corpus=None, campaign=1, per_kind=0,
-                                               setups=rp["setup"], label=rp.get("label", ""))))
+                                               setups=rp["setup"], label=rp.get("label", ""), op=rp.get("op", ""))))
         else:                  # one shape
             os.makedirs(f"{work}/replay_corpus", exist_ok=True)
             json.dump(rp, open(f"{work}/replay_corpus/r.json", "w"))
             runs.append((f"{work}/run0", dict(seed=seed, shapes=0, corpus=f"{work}/replay_corpus", campaign=0, per_kind=0)))
     elif tier == "quick":
-        runs.append((f"{work}/run0", dict(seed=seed, shapes=3000, corpus=f"{ctx['root']}/corpus/c14", campaign=1, per_kind=0)))
+        runs.append((f"{work}/run0", dict(seed=seed, shapes=3000, corpus=f"{ctx['root']}/corpus/c14", campaign=1, per_kind=0, merges=6000)))
     else:
-        runs.append((f"{work}/run0", dict(seed=seed, shapes=120000, corpus=f"{ctx['root']}/corpus/c14", campaign=1, per_kind=0)))
+        runs.append((f"{work}/run0", dict(seed=seed, shapes=120000, corpus=f"{ctx['root']}/corpus/c14", campaign=1, per_kind=0, merges=400000)))
         for k in range(1, 9):   # the ZK provers are randomised: more proofs, every position each
             runs.append((f"{work}/run{k}", dict(seed=seed + 7919 * k, shapes=0, corpus=None, campaign=1, per_kind=0)))
 
-    tot = {"evaluations": 0, "distinct": 0, "inputs": 0, "perturbations": 0, "lines": 0, "disagreements": 0}
+    tot = {"evaluations": 0, "distinct": 0, "inputs": 0, "perturbations": 0, "lines": 0, "disagreements": 0,
+           "merges": 0, "merge_distinct": 0, "shape_perturbations": 0, "shape_followups": 0}
     hist, samples, campaign, corpus_notes = {}, [], [], []
     model_flags = {"validated": 0, "not_validated": 0, "dead_when_validated": 0, "dead_when_not_validated": 0, "wf0": 0}
     for out, kw in runs:
@@ -78,6 +92,9 @@ def run(ctx):
             violations.append({"class": v["class"], "what": f"{v['kind']} {v['class']} {d}", "replay": v["replay"]})
         tot["evaluations"] += rep["evaluations"]; tot["distinct"] += rep["distinct"]
         tot["inputs"] += rep["inputs_checked"]; tot["perturbations"] += rep["perturbations"]
+        tot["merges"] += rep.get("merge_evaluations", 0); tot["merge_distinct"] += rep.get("merge_distinct", 0)
+        tot["shape_perturbations"] += sum(c.get("shape_perturbations", 0) for c in rep["campaign"])
+        tot["shape_followups"] += sum(c.get("shape_followup_perturbations", 0) for c in rep["campaign"])
         for k, v in rep["hist"].items():
             if k.startswith("campaign.") and k.endswith(".positions"):
                 hist[k] = v
@@ -89,9 +106,11 @@ def run(ctx):
             got = {c["setup"]: c for c in rep["campaign"]}
             for st in EXPECTED_SETUPS:
                 c = got.get(st)
-                if c is None or (c["baseline_ok"] and c["perturbations"] < c["packed_positions"]):
+                if c is None or (c["baseline_ok"] and (c["perturbations"] < c["packed_positions"] or c.get("shape_sites", 0) == 0
+                                                       or c.get("shape_perturbations", 0) < c.get("shape_sites", 0))):
                     violations.append({"class": "campaign-setup-incomplete:" + st,
-                                       "what": f"campaign setup {st} did not perturb every packed position: {c}",
+                                       "what": f"campaign setup {st} did not perturb every packed position / apply every structural mutation: "
+                                               f"{ {k: v for k, v in (c or {}).items() if k not in ('kinds', 'shape_kinds')} }",
                                        "replay": {"setup": st, "seed": kw["seed"], "label": ""}, "no_input": True})
         corpus_notes += rep.get("corpus_notes", [])
         # model side
@@ -142,16 +161,50 @@ def run(ctx):
                                                   "line_kind": (a or b or "").split(" ")[0], "token_index": j,
                                                   "impl": (ta[max(0, j - 2):j + 3]), "model": (tb[max(0, j - 2):j + 3])},
                                        "no_input": True})
-    cov = {"evaluations": tot["evaluations"] + tot["perturbations"],
+        # hidmerge correspondence (one answer line per case)
+        if os.path.exists(f"{out}/c14m.cases") and os.path.getsize(f"{out}/c14m.cases") > 0:
+            with open(f"{out}/c14m.cases") as fin:
+                rc, mo = ctx["sh"]([driver], stdin=fin, timeout=3600)
+            with open(f"{out}/c14m.model", "w") as fh:
+                fh.write(mo)
+            mimpl, mmodel, mcases = _read(f"{out}/c14m.impl"), _read(f"{out}/c14m.model"), _read(f"{out}/c14m.cases")
+            while mmodel and mmodel[-1] == "":
+                mmodel.pop()
+            tot["lines"] += len(mimpl)
+            shown = 0
+            for k in range(max(len(mimpl), len(mmodel))):
+                a = mimpl[k] if k < len(mimpl) else None
+                b = mmodel[k] if k < len(mmodel) else None
+                if b is not None and b.startswith("hidmerge ok-dead"):
+                    violations.append({"class": "model-self-check", "what": f"model: theorem hidMerge_complete contradicted by evaluation: {b}",
+                                       "replay": {"case_line": mcases[k] if k < len(mcases) else ""}, "no_input": True})
+                if a != b:
+                    tot["disagreements"] += 1
+                    if shown < 3:
+                        shown += 1
+                        violations.append({"class": "model-disagreement",
+                                           "what": f"correspondence {CORRESPONDENCE_MERGE} no longer checks: impl={a!r} model={b!r}",
+                                           "replay": {"correspondence": CORRESPONDENCE_MERGE, "case_line": mcases[k] if k < len(mcases) else "",
+                                                      "impl": a, "model": b},
+                                           "no_input": True})
+    cov = {"evaluations": tot["evaluations"] + tot["perturbations"] + tot["merges"],
+           "hidmerge_cases": tot["merges"], "hidmerge_distinct": tot["merge_distinct"],
+           "shape_perturbations": tot["shape_perturbations"], "shape_followup_perturbations": tot["shape_followups"],
            "shapes": tot["evaluations"], "inputs_read_back": tot["inputs"], "perturbations": tot["perturbations"],
-           "distinct_nontrivial": tot["distinct"],
+           "distinct_nontrivial": tot["distinct"] + tot["merge_distinct"],
            "rule": "shapes: seeded generator over {uni, batch} x {TwoAdicFriPcs+MerkleTreeMmcs, HidingFriPcs+MerkleTreeMmcs, "
                    "HidingFriPcs+MerkleTreeHidingMmcs (BabyBear, D=4, E=8), TwoAdicFriPcs (Goldilocks, D=2, E=4)}: 1-4 tables, widths 0-5, "
                    "optional next-row / preprocessed / random openings, 0-4 quotient chunks of 0-4 values, cap roots {1,2,4}, 0-3 FRI phases with "
                    "log-arity 1-3, 0-3 queries, 0-3 batch openings of 0-3 matrices, salts, hiding rounds, lookup terminals, preprocessed "
                    "commitment; distinct = distinct shape lines; every shape allocates, packs, builds and runs a real circuit and every one of its "
                    "inputs is read back (none is trivial). perturbations: every packed position of 7 real proofs (uni / batch x plain / hiding PCS / hiding PCS + salted MMCS, "
-                   "+ circuit tables), each judged by the native verifier and by the circuit runner",
+                   "+ circuit tables), each judged by the native verifier and by the circuit runner; structural perturbations: for the same 7 proofs every "
+                   "container (opened-value vectors, quotient chunk lists, hiding random openings at all four nesting levels, FRI commit-phase caps / PoW "
+                   "witnesses / query proofs / batch openings / matrices / rows / salts / steps / siblings / final polynomial, instances, lookup terminals, "
+                   "air public values) pushed and popped by one, every option dropped / supplied, every cap doubled / halved, every log_arity +-1; the "
+                   "verifier circuit is rebuilt for the mutated proof; if it accepts, every surplus element and first/last of every other kind is altered; "
+                   "hidmerge: seeded opening structures (0-4 rounds x 0-4 matrices x 0-3 points) against hiding shapes, mirrored or with 1-2 discrepancies "
+                   "(surplus / missing round, matrix, point on either side), through the real HidingFriPcs::verify_circuit (plain and salted MMCS)",
            "samples": samples[:6], "input_distribution": hist,
            "traces_validated_against_impl": tot["lines"], "disagreements_checked": tot["disagreements"],
            "campaign": campaign, "corpus_notes": corpus_notes, "model_flags": model_flags,
@@ -160,7 +213,7 @@ def run(ctx):
 
 
 CHECK = {
-    "lean_modules": ["P3R.Props.C14", "P3R.Witness.C14"],
+    "lean_modules": ["P3R.Props.C14", "P3R.Witness.C14", "P3R.Props.C14Merge", "P3R.Witness.C14Merge"],
     "lean_exes": ["p3r_driver_c14"],
     "theorems": [
         "P3R.C14.packing_aligned_uni", "P3R.C14.packing_aligned_batch",
@@ -168,6 +221,8 @@ CHECK = {
         "P3R.C14.packed_position_uni", "P3R.C14.packed_position_batch",
         "P3R.C14.no_dead_input_uni", "P3R.C14.no_dead_input_batch",
         "P3R.Witness.C14.wf_needed", "P3R.Witness.C14.bad_lengths", "P3R.Witness.C14.pub_aligned_unconditional",
+        "P3R.C14.hidMerge_complete", "P3R.C14.hidMerge_no_dead_input", "P3R.C14.hidMerge_ok_iff", "P3R.C14.hidMerge_error_of_mismatch",
+        "P3R.Witness.C14.points_check_needed", "P3R.Witness.C14.surplus_point_lengths", "P3R.Witness.C14.surplus_point_rejected",
     ],
     "run": run,
     "trusted_base": [
@@ -176,6 +231,9 @@ CHECK = {
         "harness/src/c14_cfg.rs: the two hand-written walks (proof structures, target structures) that give names to elements and targets",
         "BatchProofTargets::opened_values_targets and CommonDataTargets::preprocessed are crate-private: per-instance opened-value targets are "
         "reached through the public flattened view, the preprocessed commitment's targets by elimination (last unlabelled public inputs)",
+        "hidMerge is a transcription of merge_hiding_random_openings (private fn): tied to the Rust only through the verdict of "
+        "HidingFriPcs::verify_circuit (which check fired), and end-to-end by the structural perturbation campaign",
+        "structural perturbation walk (harness/src/c14_campaign.rs ShapeVis / swalk_*): hand-written enumeration of the proof's containers",
         "no_dead_input is about the block-level consumption model (…Uses); that a consumed operand is constrained is the subject of "
         "C05/C07/C08/C13/C20 and is observed here only through the perturbation campaign",
     ],
@@ -185,6 +243,11 @@ CHECK = {
         "PrivateInputLengthMismatch, replayed from corpus/c14/malformed_siblings.json every run)",
         "no_dead_input: shapes accepted by the verifier's own shape validation (preprocessed openings only with a preprocessed commitment, "
         "lookup terminals only with a permutation commitment); other shapes yield InvalidProofShape and no circuit",
+        "hiding PCS: the block `optL p.hid hidPriv` of pcsUses is justified by hidMerge_complete for proofs on which the merge succeeds; on every "
+        "other proof merge_hiding_random_openings returns InvalidProofShape and no circuit is built (hidMerge_ok_iff)",
+        "a structurally mutated proof that the rebuilt circuit accepts while the native verifier rejects is a C14 violation only if one of its "
+        "inputs is dead (altering it leaves the circuit accepting); shape acceptance as such (observed: one FRI query proof fewer — the number of "
+        "queries is taken from the proof, FriVerifierParams has no num_queries) is listed in coverage.campaign[].shape_accepted, subject of C01/C15",
         "allocation and packing use the same proof shape (allocate(proof) then pack_values(proof') with shape(proof') = shape(proof)); a proof of a "
         "different shape is refused by set_public_inputs / set_private_inputs on length, or is C15's subject",
         "Merkle sibling digests are not circuit inputs (HashProofTargets::new allocates nothing); they are NPO private data, outside the packed "
@@ -200,8 +263,9 @@ MANIFEST_ENTRY = {
     "replay_cmd_template": "bin/check C14 --replay {path}",
     "engine": "lean-models",
     "technique": "Lean 4 theorems over separately transcribed allocation / public-packing / private-packing traversals of every Recursive "
-                 "implementation, for every shape; differential correspondence by sentinel read-back through real circuits; single-position "
-                 "perturbation of real proofs against the native verifier",
+                 "implementation, for every shape, and over the guarded zips of merge_hiding_random_openings; differential correspondence by "
+                 "sentinel read-back through real circuits and by the shape verdict of the real HidingFriPcs::verify_circuit; single-position and "
+                 "structural (one container grown / shrunk, circuit rebuilt) perturbation of real proofs against the native verifier",
     "level_claimed": {
         "category": "proof",
         "text": "for every proof shape (tables, widths, optional openings, chunks, cap heights, FRI phases and arities, queries, batch "
